@@ -252,6 +252,14 @@ def c_push_from_buffer(g, st, pc, dst, args):  # shape_: the carried row lands i
     st["env"][dst] = ("abstract", "row index")
 
 
+def c_modify_location(g, st, pc, dst, args):  # allocm_: whole location replaced (archetype and row)
+    st["flags"]["location_update"] = "archetype and row"
+
+
+def c_modify_location_index(g, st, pc, dst, args):  # allocm_: row replaced, archetype kept
+    st["flags"]["location_update"] = "row only"
+
+
 def c_get_unchecked_bit(g, st, pc, dst, args):
     st["env"][dst] = st["flags"]["has_component"]
 
@@ -284,7 +292,8 @@ ENTRY_CONTRACTS = [
     (r"Vec::<u8>::as_ptr|as_ptr", c_pure("ptr")),
     (r"Archetype::<\w+>::identifier$", c_pure("identifier ref")),
     (r"Location::<\w+>::new$", c_pure("location")),
-    (r"allocator::Allocator::<\w+>::modify_location_unchecked$", c_pure("()")),
+    (r"allocator::Allocator::<\w+>::modify_location_unchecked$", c_modify_location),
+    (r"allocator::Allocator::<\w+>::modify_location_index_unchecked$", c_modify_location_index),
     (r"deref|Deref", c_pure("deref")),
 ]
 
@@ -325,6 +334,9 @@ def check_fn(mir, title, pattern, len_re, contracts, flags, post_len, results, s
         prove("%s: stored rows == active slots == len afterwards" % tag, pre + pc, z3.And(fin["rows"] == fin["len"], fin["active"] == fin["len"]), results)
         if "in_flight" in fin["flags"]:
             prove("%s: no row is left in flight" % tag, pre + pc, z3.BoolVal(fin["flags"]["in_flight"] == 0), results)
+            # the entity moved to another archetype: its slot must be pointed at (new archetype, new row)
+            prove("%s: the moved entity's location is replaced as a whole (archetype and row)" % tag, pre + pc,
+                  z3.BoolVal(fin["flags"].get("location_update") == "archetype and row"), results)
     prove("%s: some path applies to every pre-state" % title, pre, z3.Or([z3.And(pc) if pc else z3.BoolVal(True) for pc, _ in paths]), results)
     return len(paths)
 
